@@ -185,14 +185,14 @@ def safe_check(mod, case):
             # decoy pre-pass: the same calls on a look-alike array first (same dims, sizes, end labels - other labels in between, other
             # values), result ignored: whatever the library remembers under a key coarser than the full content now belongs to the decoy
             if eligible and (case.get("decoy") or (not oeo and _stride(case, 4))):
-                ds_ = _D.decoy_spec(case["a"])
-                if ds_ is not None:
-                    case["decoy"] = True
-                    try:
-                        mod.check(dict(case, a=ds_))
-                    except Exception:
-                        pass
-                    _C.reset_options()
+                for ds_ in (_D.decoy_spec(case["a"]), _D.decoy_rotated(case["a"])):
+                    if ds_ is not None:
+                        case["decoy"] = True
+                        try:
+                            mod.check(dict(case, a=ds_))
+                        except Exception:
+                            pass
+                        _C.reset_options()
             if oeo:
                 _D.RECORD, _D.LAST = True, {}
             r = mod.check(case)
